@@ -34,6 +34,25 @@ check("C18", "exploration",
       "bounded-exhaustive enumeration of all operand tuples on the real code (explicit reference model)",
       "DESIGN.md §3/C18")
 
+check("C10", "exploration",
+      "Every boolean formula tree up to depth 3 over the atom/connective alphabet, as guard and as invariant, is type "
+      "checked by the real library and compared with a reference convexity classifier transcribed from the statement; "
+      "a plain conjunction of atoms that are accepted alone must be accepted. Exhaustive within the stated alphabet/depth.",
+      "Trusts the reference classifier R4 in checks/c10.py and the small-scope hypothesis (depth <= 3, 3 (quick) / 6 (thorough) "
+      "atom kinds).",
+      "bounded-exhaustive enumeration of all formula trees on the real code against a reference classifier",
+      "DESIGN.md §3/C10")
+
+check("C14", "exploration",
+      "Full matrix: all ordered operand pairs from a typed pool x 11 commutative operators (a op b vs b op a), all ordered "
+      "pairs as inline-if branches (c?a:b vs !c?b:a), and all ordered pairs of 16 typedef'd types as (argument, reference "
+      "parameter) for functions and templates, each executed on the real type checker; oracle = same verdict and same base "
+      "kind under the swap, and acceptance of a reference argument iff the types are equivalent.",
+      "Trusts the equivalence table of the 16 types in checks/c14.py; kinds are compared after stripping const/range/label "
+      "wrappers. Small scope: the operand pool.",
+      "bounded-exhaustive matrix enumeration on the real code with a metamorphic (swap) oracle",
+      "DESIGN.md §3/C14")
+
 ALL = ["C%02d" % i for i in range(1, 21)]
 for pid in ALL:
     if pid not in CHECKS:
